@@ -90,9 +90,13 @@ impl Options {
 ///
 /// This will block until the compactor is fully finished.
 pub fn do_compaction(opts: &Options) -> crate::Result<()> {
+    #[cfg(feature = "verif")]
+    crate::verif::probe_mutex(&opts.compaction_state, "compaction/worker.rs:compaction_state.lock#23");
     #[expect(clippy::expect_used, reason = "lock is expected to not be poisoned")]
     let compaction_state = opts.compaction_state.lock().expect("lock is poisoned");
 
+    #[cfg(feature = "verif")]
+    crate::verif::probe_read(&opts.version_history, "compaction/worker.rs:version_history.read#24");
     #[expect(clippy::expect_used, reason = "lock is expected to not be poisoned")]
     let version_history_lock = opts.version_history.read().expect("lock is poisoned");
 
@@ -186,6 +190,8 @@ fn move_tables(
     opts: &Options,
     payload: &CompactionPayload,
 ) -> crate::Result<()> {
+    #[cfg(feature = "verif")]
+    crate::verif::probe_write(&opts.version_history, "compaction/worker.rs:version_history.write#25");
     #[expect(clippy::expect_used, reason = "lock is expected to not be poisoned")]
     let mut version_history_lock = opts.version_history.write().expect("lock is poisoned");
 
@@ -316,6 +322,8 @@ fn hidden_guard<T>(
         log::error!("Compaction failed: {e:?}");
 
         // IMPORTANT: We need to show tables again on error
+        #[cfg(feature = "verif")]
+        crate::verif::probe_mutex(&opts.compaction_state, "compaction/worker.rs:compaction_state.lock#26");
         #[expect(clippy::expect_used, reason = "lock is expected to not be poisoned")]
         let mut compaction_state = opts.compaction_state.lock().expect("lock is poisoned");
 
@@ -506,10 +514,14 @@ fn merge_tables(
         filter.finish();
     }
 
+    #[cfg(feature = "verif")]
+    crate::verif::probe_mutex(&opts.compaction_state, "compaction/worker.rs:compaction_state.lock#27");
     #[expect(clippy::expect_used, reason = "lock is expected to not be poisoned")]
     let mut compaction_state = opts.compaction_state.lock().expect("lock is poisoned");
 
     log::trace!("Acquiring super version write lock");
+    #[cfg(feature = "verif")]
+    crate::verif::probe_write(&opts.version_history, "compaction/worker.rs:version_history.write#28");
     #[expect(clippy::expect_used, reason = "lock is expected to not be poisoned")]
     let mut version_history_lock = opts.version_history.write().expect("lock is poisoned");
     log::trace!("Acquired super version write lock");
@@ -572,6 +584,8 @@ fn drop_tables(
     opts: &Options,
     ids_to_drop: &[TableId],
 ) -> crate::Result<()> {
+    #[cfg(feature = "verif")]
+    crate::verif::probe_write(&opts.version_history, "compaction/worker.rs:version_history.write#29");
     #[expect(clippy::expect_used, reason = "lock is expected to not be poisoned")]
     let mut version_history_lock = opts.version_history.write().expect("lock is poisoned");
 
